@@ -124,7 +124,7 @@ def run(prop, tier, seed):
                    "extra_defs": {"C03_clss.cfg": cfg(acts="ActsC03", maxops=6, maxstack=7, hist=True, onabort=onabort, wc="WC5", initws="IW5", maxw=3, upd="UI2", trg="TN2")}}]
             stages.append(pipeline.replay_stage(cg, "paramcore", {"nontrivial": nt, "tolerate": tolerate}, scratch, 1500, name="replay_class_level"))
             sg = [dict(g, cfg=g["cfg"].replace("cls", "sub"), extra_defs={k.replace("cls", "sub"): v for k, v in g["extra_defs"].items()},
-                       opts=dict(g["opts"], owner="subclass")) for g in cg[:1]]
+                       opts=dict(g["opts"], owner="subclass")) for g in cg]
             stages.append(pipeline.replay_stage(sg, "paramcore", {"nontrivial": nt, "tolerate": tolerate}, scratch, 1500, name="replay_subclass_level"))
             est = pipeline.replay_stage([{"module": "MC_Equality.tla", "cfg": "MC_Equality_gen.cfg", "workers": 4}],
                                         "equality", {}, scratch, 900, name="replay_equality", chunk=4)
